@@ -67,5 +67,5 @@ pub const C07_DICT: &[&str] = &[
     "X509Certificate", "getHTTPResponseCode", "HTTP2Stream", "AWSS3Bucket", "IoT", "ASCII", "Rgb888", "Bgra8888Srgb",
     "PDFDocument", "EOFError", "NaN", "Id", "ID", "Uuid4", "TLSv13", "SQLiteDb", "McDonald", "iPhone", "eBay",
     "A", "AB", "ABc", "AbCd", "aBC", "Ab1", "A1", "A1b", "A1B2c3", "Version2Point0", "two_words", "Three_Word_Name",
-    "SHOUT", "SHOUT_CASE", "mixed_Case_Name", "__dunder__", "trailing__", "a1", "a_b_c", "AbcDEFGhi", "ÉcoleÉlève",
+    "rgb", "red_shift", "r2d2", "rr", "rawValue", "SHOUT", "SHOUT_CASE", "mixed_Case_Name", "__dunder__", "trailing__", "a1", "a_b_c", "AbcDEFGhi", "ÉcoleÉlève",
 ];
